@@ -228,6 +228,9 @@ pub fn directed_specs() -> Vec<GSpec> {
     push("zst-drop-lifecycle", 3, vec![a(3, "id"), a(15, "label"), cl(Simple), a(25, "permit"), cl(Simple), rm(2), a(1, "tail"), cl(Simple)]);
     // zero-size data sharing an offset with a neighbour, then more data
     push("zst-shares-offset", 3, vec![a(0, "a"), a(2, "b"), cl(Simple), a(23, "z"), a(24, "m"), a(25, "p"), cl(Simple), a(2, "c"), a(19, "t"), cl(Simple), rm(2), rm(3), rm(4), cl(Basic)]);
+    // zero-size data added in the same step as the sized datum whose offset they end up sharing
+    push("zst-same-step", 3, vec![a(0, "a"), cl(Simple), a(2, "value"), a(23, "z"), a(25, "zd"), cl(Simple), rm(0), a(19, "t"), a(24, "m"), a(1, "w"), cl(Simple)]);
+    push("zst-same-step-first", 1, vec![a(0, "a"), a(19, "t"), a(25, "zd"), a(23, "z"), a(3, "n"), a(24, "m"), cl(Simple), a(5, "tri"), a(25, "zd2"), cl(Simple)]);
     // removal-only steps down to an empty variant, then data again
     push("removal-only-to-empty", 3, vec![a(15, "s"), a(19, "t"), a(2, "n"), a(21, "big"), cl(Simple), rm(2), rm(3), cl(Simple), rm(0), rm(1), cl(Simple), a(20, "pair"), u(1, "w"), cl(Simple)]);
     // empty first variant
@@ -414,7 +417,7 @@ fn mk(ty: &str, idx: &str) -> String {
 }
 
 /// Text of the driver of module `k`.
-pub fn driver_text(k: usize, spec: &GSpec, built: &Built) -> String {
+pub fn driver_text(k: usize, spec: &GSpec, built: &Built, reduced: bool) -> String {
     let vf = variant_fields(built);
     let nv = vf.len();
     let has_clone = spec.fragset & 1 != 0;
@@ -434,13 +437,13 @@ pub fn driver_text(k: usize, spec: &GSpec, built: &Built) -> String {
     }
     let _ = writeln!(w, "}}");
     let _ = writeln!(w, "#[repr(C)] pub struct SlotC<const CAP: usize> {{ hdr: u32, rec: Rec<CAP> }}");
-    let _ = writeln!(w, "pub struct State<const CAP: usize> {{ stack0: Rec<CAP>, stack1: Rec<CAP>, boxed: [Box<Rec<CAP>>; 2], vec: Vec<Rec<CAP>>, slotc: [SlotC<CAP>; 2] }}");
+    let _ = writeln!(w, "pub struct State<const CAP: usize> {{ stack0: Rec<CAP>, stack1: Rec<CAP>, boxed: [Box<Rec<CAP>>; 2], vec: Vec<Rec<CAP>>, slotc: [SlotC<CAP>; 2], minal: [drvlib::MinAligned<Rec<CAP>>; 2] }}");
     let _ = writeln!(
         w,
         "impl<const CAP: usize> State<CAP> {{
-    pub fn new() -> Self {{ State {{ stack0: Rec::Empty, stack1: Rec::Empty, boxed: [Box::new(Rec::Empty), Box::new(Rec::Empty)], vec: vec![Rec::Empty, Rec::Empty, Rec::Empty], slotc: [SlotC {{ hdr: 1, rec: Rec::Empty }}, SlotC {{ hdr: 2, rec: Rec::Empty }}] }} }}
-    fn slot_mut(&mut self, i: usize) -> &mut Rec<CAP> {{ match i {{ 0 => &mut self.stack0, 1 => &mut self.stack1, 2 | 3 => &mut *self.boxed[i - 2], 4 | 5 | 6 => &mut self.vec[i - 4], _ => &mut self.slotc[(i - 7) % 2].rec }} }}
-    fn slot_ref(&self, i: usize) -> &Rec<CAP> {{ match i {{ 0 => &self.stack0, 1 => &self.stack1, 2 | 3 => &*self.boxed[i - 2], 4 | 5 | 6 => &self.vec[i - 4], _ => &self.slotc[(i - 7) % 2].rec }} }}
+    pub fn new() -> Self {{ State {{ stack0: Rec::Empty, stack1: Rec::Empty, boxed: [Box::new(Rec::Empty), Box::new(Rec::Empty)], vec: vec![Rec::Empty, Rec::Empty, Rec::Empty], slotc: [SlotC {{ hdr: 1, rec: Rec::Empty }}, SlotC {{ hdr: 2, rec: Rec::Empty }}], minal: [drvlib::MinAligned::new(Rec::Empty), drvlib::MinAligned::new(Rec::Empty)] }} }}
+    fn slot_mut(&mut self, i: usize) -> &mut Rec<CAP> {{ match i {{ 0 => &mut self.stack0, 1 => &mut self.stack1, 2 | 3 => &mut *self.boxed[i - 2], 4 | 5 | 6 => &mut self.vec[i - 4], 7 | 8 => &mut self.slotc[i - 7].rec, _ => &mut *self.minal[(i - 9) % 2] }} }}
+    fn slot_ref(&self, i: usize) -> &Rec<CAP> {{ match i {{ 0 => &self.stack0, 1 => &self.stack1, 2 | 3 => &*self.boxed[i - 2], 4 | 5 | 6 => &self.vec[i - 4], 7 | 8 => &self.slotc[i - 7].rec, _ => &*self.minal[(i - 9) % 2] }} }}
     fn take(&mut self, i: usize) -> Rec<CAP> {{ std::mem::replace(self.slot_mut(i), Rec::Empty) }}
 }}"
     );
@@ -481,6 +484,15 @@ pub fn driver_text(k: usize, spec: &GSpec, built: &Built) -> String {
             let destructure = std::iter::once("record".to_owned()).chain(minus.iter().map(|m| m.name.clone())).collect::<Vec<_>>().join(", ");
             let returned = minus.iter().enumerate().map(|(i, m)| format!("if mask & (1 << {i}) != 0 {{ obs(&{}) }} else {{ skipped() }}", m.name)).collect::<Vec<_>>().join(", ");
             let p = v - 1;
+            if reduced {
+                let _ = writeln!(
+                    w,
+                    "fn convert_{v}<const CAP: usize>(r: CappedRecord{p}<CAP>, form: u8, ids: &[u64], mask: u64) -> (CappedRecord{v}<CAP>, Vec<FieldObs>) {{ match form {{
+    0 => (CappedRecord{v}::from((r, UnpackedRecordIn{v} {{ {plus_all} }})), Vec::new()),
+    _ => (CappedRecord{v}::from((r, UnpackedUninitRecordIn{v} {{ {plus_mand} }})), Vec::new()),
+}} }}"
+                );
+            } else {
             let _ = writeln!(
                 w,
                 "fn convert_{v}<const CAP: usize>(r: CappedRecord{p}<CAP>, form: u8, ids: &[u64], mask: u64) -> (CappedRecord{v}<CAP>, Vec<FieldObs>) {{ match form {{
@@ -490,6 +502,7 @@ pub fn driver_text(k: usize, spec: &GSpec, built: &Built) -> String {
     _ => {{ let Record{v}AndUnpackedOut {{ {destructure} }} = Record{v}AndUnpackedOut::from((r, UnpackedUninitRecordIn{v} {{ {plus_mand} }})); let o = vec![{returned}]; (record, o) }}
 }} }}"
             );
+            }
             // vector of records converted in place (form 0)
             let plus_row = plus.iter().enumerate().map(|(i, x)| format!("{}: {}", x.name, mk(PALETTE[x.pal].expr, &format!("plus_rows[i][{}]", i)))).collect::<Vec<_>>().join(", ");
             let _ = writeln!(
@@ -521,7 +534,7 @@ pub fn driver_text(k: usize, spec: &GSpec, built: &Built) -> String {
         }
     }
     // meta
-    let _ = writeln!(w, "fn meta_of<const CAP: usize>() -> Meta {{ Meta {{ module: \"m{}\", history: {:?}, cap: CAP, max_size: MAX_SIZE, has_clone: {}, has_serde: {}, uninit_size_of: std::mem::size_of::<RecordUninitialized<CAP>>(), uninit_align_of: std::mem::align_of::<RecordUninitialized<CAP>>(), variants: vec![", k, spec.text(), has_clone, has_serde);
+    let _ = writeln!(w, "fn meta_of<const CAP: usize>() -> Meta {{ Meta {{ module: \"m{}\", history: {:?}, cap: CAP, max_size: MAX_SIZE, has_clone: {}, has_serde: {}, has_returning_forms: {}, uninit_size_of: std::mem::size_of::<RecordUninitialized<CAP>>(), uninit_align_of: std::mem::align_of::<RecordUninitialized<CAP>>(), variants: vec![", k, spec.text(), has_clone, has_serde, !reduced);
     for v in 0..nv {
         let f = &vf[v];
         let (minus, plus, reuse): (Vec<usize>, Vec<usize>, usize) = if v > 0 {
@@ -633,6 +646,7 @@ pub fn mode(args: &Args) {
     for i in 0..count {
         specs.push(random_spec(&mut rng, i));
     }
+    let reduced: Vec<String> = args.str("reduced", "").split(',').filter(|x| !x.is_empty()).map(|x| x.to_owned()).collect();
     let exclude: Vec<String> = args.str("exclude", "").split(',').filter(|x| !x.is_empty()).map(|x| x.to_owned()).collect();
     if args.u64("all-fragsets", 0) != 0 {
         return mode_all_fragsets(&specs, seed, &dir);
@@ -666,7 +680,7 @@ pub fn mode(args: &Args) {
             }
         };
         write_if_changed(&dir.join("src").join(format!("m{}.rs", k)), &text);
-        write_if_changed(&dir.join("src").join(format!("d{}.rs", k)), &driver_text(k, spec, &built));
+        write_if_changed(&dir.join("src").join(format!("d{}.rs", k)), &driver_text(k, spec, &built, reduced.iter().any(|m| *m == format!("m{}", k))));
         let _ = writeln!(main, "#[allow(dead_code, unused_imports, unused_variables, clippy::all)]\nmod m{k} {{ include!(\"m{k}.rs\"); }}\nmod d{k};");
         for c in &caps {
             let _ = writeln!(body, "    {{ let mut st = d{k}::State::<{{ m{k}::MAX_SIZE + {c} }}>::new(); drvlib::interp::run_module(&mut st, &args, &mut report); }}");
